@@ -366,6 +366,8 @@ class Gen:
             t = self.gen_trait()
             self.traits.append(t)
             return t
+        if p.get("utf8_bias") and p["utf8"] and self.chance(0.35):
+            return ("str", "utf8", None, "std")       # several validated strings per method (each must be checked on its own)
         c = self.r.random()
         if c < 0.30:
             return ("prim", self.pick(self.prims()))
